@@ -122,6 +122,8 @@ pub struct FaultSpec {
 }
 
 pub type HitFn = Box<dyn FnMut(&'static str, usize, usize, &Path) + Send>;
+/// (system call class, running number of notifications in this context, path)
+pub type SysFn = Box<dyn FnMut(&'static str, usize, &Path) + Send>;
 
 #[derive(Default)]
 pub struct FsCtl {
@@ -135,6 +137,13 @@ pub struct FsCtl {
     /// abort the process at this global hit index (real-kill validation)
     pub abort_at: Option<usize>,
     pub enabled: bool,
+    /// system-call level points (LD_PRELOAD shim, see harness/shim/fsshim.c): calls that change
+    /// the directory tree below this directory are announced *before* they take effect
+    pub sys_dir: Option<PathBuf>,
+    pub on_sys: Option<SysFn>,
+    pub sys_count: usize,
+    /// abort the process at this system-call notification (real-kill validation)
+    pub abort_at_sys: Option<usize>,
 }
 
 /// Everything a scenario can control through the hooks.
@@ -298,4 +307,63 @@ pub fn with_ctx<R>(c: Arc<Ctx>, f: impl FnOnce() -> R) -> R {
     let r = f();
     set_ctx(None);
     r
+}
+
+// ---------------------------------------------------------------- system-call level points
+
+type ShimCb = extern "C" fn(*const libc::c_char, *const libc::c_char, *const libc::c_char);
+
+extern "C" fn shim_cb(op: *const libc::c_char, a: *const libc::c_char, b: *const libc::c_char) {
+    use std::os::unix::ffi::OsStrExt;
+    let Some(c) = ctx() else { return };
+    // (the hook-level snapshot copies the directory while it holds this lock: its own file
+    // operations are not points)
+    let Ok(mut g) = c.fs.try_lock() else { return };
+    if !g.enabled {
+        return;
+    }
+    let Some(dir) = g.sys_dir.clone() else { return };
+    // SAFETY: the shim passes NUL-terminated strings (never null)
+    let (op, a, b) = unsafe { (std::ffi::CStr::from_ptr(op), std::ffi::CStr::from_ptr(a), std::ffi::CStr::from_ptr(b)) };
+    let pa = Path::new(std::ffi::OsStr::from_bytes(a.to_bytes()));
+    let pb = Path::new(std::ffi::OsStr::from_bytes(b.to_bytes()));
+    if !(pa.starts_with(&dir) || (!b.to_bytes().is_empty() && pb.starts_with(&dir))) {
+        return;
+    }
+    let op: &'static str = match op.to_bytes() {
+        b"rename" => "sys:rename",
+        b"link" => "sys:link",
+        b"unlink" => "sys:unlink",
+        b"symlink" => "sys:symlink",
+        b"open-creat" => "sys:open-creat",
+        b"open-trunc" => "sys:open-trunc",
+        b"mkdir" => "sys:mkdir",
+        b"rmdir" => "sys:rmdir",
+        b"truncate" => "sys:truncate",
+        _ => "sys:other",
+    };
+    let n = g.sys_count;
+    g.sys_count += 1;
+    if let Some(mut f) = g.on_sys.take() {
+        f(op, n, pa);
+        g.on_sys = Some(f);
+    }
+    if g.abort_at_sys == Some(n) {
+        std::process::abort();
+    }
+}
+
+/// True iff the process runs with the interposition shim (LD_PRELOAD); registers the callback.
+pub fn shim_available() -> bool {
+    static AVAILABLE: OnceLock<bool> = OnceLock::new();
+    *AVAILABLE.get_or_init(|| {
+        // SAFETY: dlsym on the global scope; the symbol, if present, has the declared signature
+        let sym = unsafe { libc::dlsym(libc::RTLD_DEFAULT, c"fxv_shim_register".as_ptr()) };
+        if sym.is_null() {
+            return false;
+        }
+        let register: extern "C" fn(ShimCb) = unsafe { std::mem::transmute(sym) };
+        register(shim_cb);
+        true
+    })
 }
